@@ -37,5 +37,57 @@ pub fn run(args: &[String]) {
             }
         }
     }
+    // huge capacities: a maintenance pass must neither panic nor overflow (nor delete anything); repeated puts of a
+    // cached key are writes too: with capacity 0 every one of them maintains
+    for cap in [usize::MAX, usize::MAX / 2, isize::MAX as usize, usize::MAX - 1] {
+        evals += 1;
+        let dir = tempfile::tempdir().unwrap();
+        for i in 0..3 {
+            std::fs::File::create(dir.path().join(format!("k{}", i))).unwrap().write_all(b"v").unwrap();
+        }
+        let d = dir.path().to_owned();
+        let r = std::panic::catch_unwind(move || kismet_cache::raw_cache::prune(d, cap));
+        let left = std::fs::read_dir(dir.path()).unwrap().flatten().filter(|e| e.path().is_file()).count();
+        let what = match r {
+            Err(_) => Some("maintenance panics"),
+            Ok(Err(_)) => Some("maintenance fails"),
+            Ok(Ok(_)) if left != 3 => Some("maintenance deleted files of a directory within capacity"),
+            _ => None,
+        };
+        if let Some(what) = what {
+            println!(
+                "{{\"found\":{{\"capacity\":\"{}\",\"files\":3,\"what\":\"{}\"}},\"evaluations\":{},\"distinct_nontrivial\":{}}}",
+                cap, what, evals, evals
+            );
+            return;
+        }
+    }
+    {
+        evals += 1;
+        let dir = tempfile::tempdir().unwrap();
+        let cache = Cache::new(dir.path().to_owned(), 0);
+        let tmp = cache.temp_dir().unwrap().into_owned();
+        let stage = |n: &str| {
+            let p = tmp.join(n);
+            std::fs::File::create(&p).unwrap().write_all(b"v").unwrap();
+            p
+        };
+        cache.put("k", &stage("s0")).unwrap();
+        // foreign files appear (another process wrote them); the next write, a put of a key that may or may not still
+        // be cached, must maintain first: capacity 0, period 1
+        for i in 0..5 {
+            std::fs::File::create(dir.path().join(format!("foreign{}", i))).unwrap().write_all(b"v").unwrap();
+        }
+        cache.put("k", &stage("s1")).unwrap();
+        cache.put("k", &stage("s2")).unwrap();
+        let count = std::fs::read_dir(dir.path()).unwrap().flatten().filter(|e| e.path().is_file()).count();
+        if count > 1 {
+            println!(
+                "{{\"found\":{{\"capacity\":0,\"what\":\"{} files left after two puts of one key into a directory that another process filled: a repeated put did not maintain\"}},\"evaluations\":{},\"distinct_nontrivial\":{}}}",
+                count, evals, evals
+            );
+            return;
+        }
+    }
     println!("{{\"found\":null,\"evaluations\":{},\"distinct_nontrivial\":{}}}", evals, evals);
 }
